@@ -1,7 +1,8 @@
 import Dasp.Driver.Loop
+import Dasp.Driver.Bus
 open Dasp.Driver
 
--- stub: replaced when property C13 is wired in
 def main : IO Unit := runDriver fun
+  | "bus" :: rest => busLine rest
   | [] => ""
   | _ => "bad-op"
